@@ -73,18 +73,26 @@ def o_point(a):
 
 
 def o_gauss(a):
+    """Gaussian disk: moments of the drawn positions in the tangent plane, for several draws from the *same* object (the three detector units of a
+    run draw from one ROI model): every draw has the declared width"""
     from ixpeobssim.srcmodel.roi import xGaussianDisk
     src = xGaussianDisk('g', a['ra'], a['dec'], a['sigma'], *spec())
-    cov = src._xGaussianDisk__cov
-    mean = src._xGaussianDisk__mean
-    c = math.cos(math.radians(a['dec']))
-    e = max(abs(cov[0][0] * c * c / a['sigma'] ** 2 - 1), abs(cov[1][1] / a['sigma'] ** 2 - 1), abs(cov[0][1]), abs(cov[1][0]))
+    e = 0.
+    cov, mean = getattr(src, '_xGaussianDisk__cov', None), getattr(src, '_xGaussianDisk__mean', None)
+    if cov is not None and mean is not None:
+        c = math.cos(math.radians(a['dec']))
+        e = max(abs(cov[0][0] * c * c / a['sigma'] ** 2 - 1), abs(cov[1][1] / a['sigma'] ** 2 - 1), abs(cov[0][1]), abs(cov[1][0]))
+        if list(mean) != [a['ra'], a['dec']]:
+            e = 1.
     numpy.random.seed(a['seed'])
-    ra, dec = src.rvs_sky_coordinates(200000)
-    x, y = tangent(ra, dec, a['ra'], a['dec'])
-    sx, sy, rho = float(x.std() / a['sigma']), float(y.std() / a['sigma']), float(numpy.corrcoef(x, y)[0, 1])
-    ok = e < 1e-12 and list(mean) == [a['ra'], a['dec']] and abs(sx - 1) < 0.012 and abs(sy - 1) < 0.012 and abs(rho) < 0.012 and abs(x.mean()) < 0.012 * a['sigma'] and abs(y.mean()) < 0.012 * a['sigma']
-    return ok, dict(cov_err=e, sx_over_sigma=sx, sy_over_sigma=sy, corr=rho)
+    ok, draws = e < 1e-12, []
+    for k in range(3):
+        ra, dec = src.rvs_sky_coordinates(200000)
+        x, y = tangent(ra, dec, a['ra'], a['dec'])
+        sx, sy, rho = float(x.std() / a['sigma']), float(y.std() / a['sigma']), float(numpy.corrcoef(x, y)[0, 1])
+        draws.append(dict(draw=k, sx_over_sigma=sx, sy_over_sigma=sy, corr=rho))
+        ok = ok and abs(sx - 1) < 0.012 and abs(sy - 1) < 0.012 and abs(rho) < 0.012 and abs(x.mean()) < 0.012 * a['sigma'] and abs(y.mean()) < 0.012 * a['sigma']
+    return ok, dict(cov_err=e, draws=draws)
 
 
 def make_image(path, data, ra0, dec0, pix_arcsec=6., dtype=float, pix_y_arcsec=None, store=None):
